@@ -119,7 +119,7 @@ def registry(strict=False):
               [{'name': 'null_' + n, 'null': [n], 'cost': 2} for n in ('state', 'in', 'out')]
     NULLS = 'null(state) or null(in) or null(out)'
     R.define('consumed()', 'u64(old(len) - len)')
-    R.fn('chacha20_encrypt', regions={'state': 'struct', 'in': 'u8[len]', 'out': 'u8[len]'}, configs=cfg_enc, cost=70, quick=['inplace', 'null_state', 'null_in', 'null_out'],
+    R.fn('chacha20_encrypt', regions={'state': 'struct', 'in': 'u8[len]', 'out': 'u8[len]'}, configs=cfg_enc, cost=130, quick=['inplace', 'null_state', 'null_in', 'null_out'],
          modifies=['out', 'state.h', 'state.keyStream', 'state.usedKeyStream'],
          requires={'buffer': 'null(state) or state.usedKeyStream <= 64'},
          ensures={
